@@ -215,7 +215,7 @@ func genC14(seed uint64, r *Rng, idx, vecs int) *C14Case {
 		cs.Files[i].Cached = r.Chance(0.5)
 	}
 	for i, k := 0, r.Range(0, 3); i < k; i++ {
-		cs.History = append(cs.History, C14Step{Op: pick(r, []string{"create", "delete", "replace"}), File: r.Intn(n)})
+		cs.History = append(cs.History, C14Step{Op: pick(r, []string{"create", "delete", "replace", "reregister-bad", "reregister-good", "delete"}), File: r.Intn(n)})
 	}
 	if cs.Root2 != nil {
 		cs.History = append(cs.History, C14Step{Op: "switch-root"})
@@ -735,6 +735,27 @@ func (x *c14Run) applyStep(s C14Step) {
 	}
 	f := x.cs.Files[s.File]
 	p := filepath.Join(x.roots[0].dir, f.Rel)
+	switch s.Op {
+	case "reregister-bad":
+		// a registration that fails to parse must leave an earlier registration alone
+		guard(func() Res {
+			x.eng.ParseTemplateAndCache([]byte(dTL+" if "+dTR+" unterminated"), p, 1)
+			return Res{}
+		})
+		return
+	case "reregister-good":
+		src := Source(f.Alt) + "<re-registered>"
+		r := guard(func() Res {
+			if _, err := x.eng.ParseTemplateAndCache([]byte(src), p, 1); err != nil {
+				return errRes(err, "parse")
+			}
+			return Res{OK: true}
+		})
+		if r.OK {
+			x.cache[p] = src
+		}
+		return
+	}
 	if _, sp := x.special[p]; sp {
 		return
 	}
